@@ -2,5 +2,6 @@
 package props
 
 import (
+	_ "verif/mc/props/c15"
 	_ "verif/mc/props/c20"
 )
